@@ -150,24 +150,33 @@ type c11List struct {
 	kids  []c11Node
 	units []string // field units (already in s-expression form), with encodings in unitEnc
 	uenc  [][]byte
-	tgt   int // add: target local or -1
+	tgt   int     // add: target local or -1
 	name2 c11Name // ifield: data register; bfield: bank register
 	val   c11Int  // bfield: bank value
 }
 
-func c11Kids(ks []c11Node) (string, []byte) {
+func c11Kids(ks []c11Node) (string, []byte) { return c11KidsSx(ks), c11KidsEnc(ks) }
+
+// the two halves separately: sx() must not encode and enc() must not print, or the cost doubles at every nesting level
+func c11KidsSx(ks []c11Node) string {
 	var sb strings.Builder
-	var out []byte
 	for _, k := range ks {
 		sb.WriteByte(' ')
 		sb.WriteString(k.sx())
+	}
+	return sb.String()
+}
+
+func c11KidsEnc(ks []c11Node) []byte {
+	var out []byte
+	for _, k := range ks {
 		out = append(out, k.enc()...)
 	}
-	return sb.String(), out
+	return out
 }
 
 func (l *c11List) sx() string {
-	ks, _ := c11Kids(l.kids)
+	ks := c11KidsSx(l.kids)
 	switch l.kind {
 	case "p":
 		return fmt.Sprintf("( p %d%s )", l.w, ks)
@@ -213,7 +222,7 @@ func (l *c11List) sx() string {
 
 // body bytes (without opcode and PkgLength) — used to choose the width before encoding
 func (l *c11List) body() []byte {
-	_, kb := c11Kids(l.kids)
+	kb := c11KidsEnc(l.kids)
 	switch l.kind {
 	case "p":
 		return append([]byte{byte(len(l.kids))}, kb...)
@@ -251,7 +260,14 @@ func (l *c11List) body() []byte {
 }
 
 func (l *c11List) enc() []byte {
-	_, kb := c11Kids(l.kids)
+	// every level encodes its children exactly once (programs may be nested 40 deep)
+	switch l.kind {
+	case "p", "if", "while", "scope", "device", "thermal", "method", "field", "ifield", "bfield", "proc", "power":
+		op := map[string][]byte{"p": {0x12}, "if": {0xa0}, "while": {0xa2}, "scope": {0x10}, "device": {0x5b, 0x82}, "thermal": {0x5b, 0x85},
+			"method": {0x14}, "field": {0x5b, 0x81}, "ifield": {0x5b, 0x86}, "bfield": {0x5b, 0x87}, "proc": {0x5b, 0x83}, "power": {0x5b, 0x84}}[l.kind]
+		return c11Pkg(op, l.w, l.body())
+	}
+	kb := c11KidsEnc(l.kids)
 	switch l.kind {
 	case "p":
 		return c11Pkg([]byte{0x12}, l.w, l.body())
@@ -326,7 +342,7 @@ type c11Gen struct {
 	methods []*c11Method
 	feature map[string]bool
 	units   map[string][]string // field units declared per scope
-	clean   bool // avoid every construct with a recorded known finding (most cases), so that they pass the whole oracle
+	clean   bool                // avoid every construct with a recorded known finding (most cases), so that they pass the whole oracle
 	inWhile bool
 }
 
@@ -879,6 +895,14 @@ func (g *c11Gen) table(first bool) []c11Node {
 			top = append(top, l)
 		}
 	}
+	// now and then: a block nested 16..40 deep with root-level declarations behind it, or a sequence of deferred blocks
+	if r.chance(4) {
+		top = append(top, g.deepChain(nil)...)
+		top = append(top, g.plainName(nil), g.plainName(nil))
+	}
+	if r.chance(6) {
+		top = append(top, g.deferredSeq()...)
+	}
 	// method bodies: calls may reference any visible method, declared before or after (forward)
 	for _, m := range g.methods[nm:] {
 		m.node.kids = g.stmts(append(append([]string(nil), m.scope...), m.name), 2, r.intn(5))
@@ -888,6 +912,156 @@ func (g *c11Gen) table(first bool) []c11Node {
 	c11Fix(r, top)
 	c11Fix(r, top)
 	return top
+}
+
+// plainName declares Name(XXXX, integer) in `scope`
+func (g *c11Gen) plainName(scope []string) c11Node {
+	seg := g.fresh('N', scope)
+	g.declare(scope, seg, "name")
+	return &c11List{kind: "name", name: c11Name{segs: []string{seg}}, kids: []c11Node{g.integer()}}
+}
+
+// deepChain: 16..40 scoped objects nested directly in each other, declarations before and behind the nested block on
+// the levels (seeded change I: as many package ends open at once as the parser's stacks must hold independently)
+func (g *c11Gen) deepChain(scope []string) []c11Node {
+	r := g.r
+	depth := 16 + r.intn(25)
+	paths := make([][]string, depth+1)
+	kinds := make([]string, depth)
+	segs := make([]string, depth)
+	paths[0] = scope
+	for lv := 0; lv < depth; lv++ {
+		segs[lv] = g.fresh('D', paths[lv])
+		kinds[lv] = []string{"device", "device", "thermal", "proc", "power"}[r.intn(5)]
+		paths[lv+1] = g.declare(paths[lv], segs[lv], kinds[lv])
+	}
+	var inner []c11Node
+	for lv := depth - 1; lv >= 0; lv-- {
+		var kids []c11Node
+		if r.chance(50) {
+			kids = append(kids, g.plainName(paths[lv+1]))
+		}
+		kids = append(kids, inner...)
+		if r.chance(50) {
+			kids = append(kids, g.plainName(paths[lv+1]))
+		}
+		l := &c11List{kind: kinds[lv], name: c11Name{segs: []string{segs[lv]}}}
+		switch kinds[lv] {
+		case "proc":
+			l.ints = []uint64{uint64(r.intn(8)), r.next() & 0xffffffff, uint64(r.intn(7))}
+		case "power":
+			l.ints = []uint64{uint64(r.intn(5)), uint64(r.intn(0x10000))}
+		}
+		l.kids = kids
+		l.w = c11Width(r, len(l.body()))
+		inner = []c11Node{l}
+	}
+	g.feature["deep-nesting"] = true
+	return inner
+}
+
+// deferredData: a Buffer or Package whose initializer is empty about half of the time
+func (g *c11Gen) deferredData(depth int) c11Node {
+	r := g.r
+	if r.chance(60) || depth == 0 {
+		n := 0
+		if r.chance(50) {
+			n = 1 + r.intn(5)
+		}
+		b := make([]byte, n)
+		for i := range b {
+			b[i] = byte(r.next())
+		}
+		return c11Buf{c11Width(r, 2+n), n + r.intn(5), b}
+	}
+	l := &c11List{kind: "p"}
+	if r.chance(50) {
+		for k := 1 + r.intn(3); k > 0; k-- {
+			if r.chance(50) {
+				l.kids = append(l.kids, g.deferredData(depth-1))
+			} else {
+				l.kids = append(l.kids, g.integer())
+			}
+		}
+	}
+	l.w = c11Width(r, len(l.body()))
+	return l
+}
+
+// deferredSeq: deferred blocks one after the other (seeded change J): a method whose While body ends in a nested If /
+// While (itself with a body that creates an object), with Buffers / Packages declared before and behind it; the method in
+// the root scope or in \_SB (the pre-defined scopes are walked before the table's own root objects)
+func (g *c11Gen) deferredSeq() []c11Node {
+	r := g.r
+	var out []c11Node
+	dataName := func(scope []string) c11Node {
+		seg := g.fresh('B', scope)
+		g.declare(scope, seg, "name")
+		return &c11List{kind: "name", name: c11Name{segs: []string{seg}}, kids: []c11Node{g.deferredData(1)}}
+	}
+	store := func() c11Node {
+		return &c11List{kind: "store", kids: []c11Node{g.integer()}, ints: []uint64{uint64(r.intn(8))}}
+	}
+	pred := func() c11Node {
+		if r.chance(50) {
+			return c11Leaf{"A0", []byte{0x68}}
+		}
+		return g.integer()
+	}
+	var nested func(d int) c11Node
+	nested = func(d int) c11Node {
+		kind := "if"
+		if r.chance(35) {
+			kind = "while"
+		}
+		body := []c11Node{store()}
+		if d > 0 && r.chance(40) {
+			body = append(body, nested(d-1))
+		}
+		l := &c11List{kind: kind, kids: append([]c11Node{pred()}, body...)}
+		l.w = c11Width(r, len(l.body()))
+		return l
+	}
+	for k := r.intn(3); k > 0; k-- {
+		out = append(out, dataName(nil))
+	}
+	mscope := []string(nil)
+	if r.chance(50) {
+		mscope = []string{"_SB_"}
+	}
+	mseg := g.fresh('M', mscope)
+	g.declare(mscope, mseg, "method")
+	var body []c11Node
+	for k := 1 + r.intn(2); k > 0; k-- {
+		var wb []c11Node
+		for j := r.intn(2); j > 0; j-- {
+			wb = append(wb, store())
+		}
+		wb = append(wb, nested(2))
+		w := &c11List{kind: "while", kids: append([]c11Node{pred()}, wb...)}
+		w.w = c11Width(r, len(w.body()))
+		body = append(body, w)
+	}
+	m := &c11List{kind: "method", name: c11Name{segs: []string{mseg}}, ints: []uint64{1}, kids: body}
+	m.w = c11Width(r, len(m.body()))
+	if len(mscope) == 0 {
+		out = append(out, m)
+	} else {
+		sc := &c11List{kind: "scope", name: c11Name{root: true, segs: mscope}, kids: []c11Node{m}}
+		if r.chance(50) {
+			sc.kids = append(sc.kids, dataName(mscope))
+		}
+		sc.w = c11Width(r, len(sc.body()))
+		g.feature["scope-absolute"] = true
+		out = append(out, sc)
+	}
+	for k := 1 + r.intn(3); k > 0; k-- {
+		out = append(out, dataName(nil))
+	}
+	g.feature["while-deferred"] = true
+	g.feature["deferred-nested-block"] = true
+	g.feature["deferred-sequence"] = true
+	return out
 }
 
 func c11NewGen(r *vrng) *c11Gen {
@@ -1112,8 +1286,18 @@ func TestVerifC11(t *testing.T) {
 			one(method(N(false, 0, "MTH1"), 1)), three("NF0"),
 			one(name(N(false, 0, "BUF0"), c11Buf{1, 4, []byte{1, 2, 3}})), three("NG0"),
 			one(leafL("mutex", N(false, 0, "MTX0"), 3)), three("NH0"), one(leafL("event", N(false, 0, "EVT0"))), three("NI0"),
-			one(func() c11Node { l := leafL("proc", N(false, 0, "CPU0"), 1, 0x410, 6); l.kids = three("PN0"); l.w = c11Width(nil, len(l.body())); return l }()), three("NJ0"),
-			one(func() c11Node { l := leafL("power", N(false, 0, "PWR0"), 2, 7); l.kids = three("QN0"); l.w = c11Width(nil, len(l.body())); return l }()), three("NK0"),
+			one(func() c11Node {
+				l := leafL("proc", N(false, 0, "CPU0"), 1, 0x410, 6)
+				l.kids = three("PN0")
+				l.w = c11Width(nil, len(l.body()))
+				return l
+			}()), three("NJ0"),
+			one(func() c11Node {
+				l := leafL("power", N(false, 0, "PWR0"), 2, 7)
+				l.kids = three("QN0")
+				l.w = c11Width(nil, len(l.body()))
+				return l
+			}()), three("NK0"),
 			one(cont("thermal", N(false, 0, "THM0"), three("TN0")...)), three("NL0"),
 			one(cont("device", N(false, 0, "DEV0"), cat(one(region("REG1", 1, c11Int{1, 0x80}, c11Int{1, 8})),
 				one(flist("field", N(false, 0, "REG1"), noName, c11Int{}, 1, "DFL0:8", "DFL1:8")),
@@ -1131,6 +1315,124 @@ func TestVerifC11(t *testing.T) {
 		c11Hand("b-later-table", "call,later-table-scope", []c11Node{cont("scope", N(false, 0, "_SB_"), cont("device", N(false, 0, "DEV0"), method(N(false, 0, "M000"), 1)))},
 			[]c11Node{cont("scope", N(true, 0, "_SB_", "DEV0"), name(N(false, 0, "N000"), i1(1)), method(N(false, 0, "M001"), 0, call("M000", i1(9))))}),
 	)
+	// ---- deep nesting (seeded change I: the parser's scope stack and package-end stack must be independent however many
+	// packages are open at once): `depth` scoped objects nested directly in each other, every level with a declaration
+	// before and after the nested block, then declarations in the root scope behind the whole block
+	deep := func(depth int, mixed bool) []c11Node {
+		var inner []c11Node
+		for lv := depth - 1; lv >= 0; lv-- {
+			kids := []c11Node{name(N(false, 0, fmt.Sprintf("NA%02d", lv)), i1(uint64(lv)))}
+			kids = append(kids, inner...)
+			kids = append(kids, name(N(false, 0, fmt.Sprintf("NB%02d", lv)), c11Int{2, uint64(0x100 + lv)}))
+			nm := N(false, 0, fmt.Sprintf("D%03d", lv))
+			kind := "device"
+			if mixed {
+				kind = []string{"device", "thermal", "proc", "power"}[lv%4]
+			}
+			var l *c11List
+			switch kind {
+			case "proc":
+				l = leafL("proc", nm, uint64(lv), uint64(0x400+lv), 6)
+			case "power":
+				l = leafL("power", nm, uint64(lv%5), uint64(lv))
+			default:
+				l = &c11List{kind: kind, name: nm}
+			}
+			l.kids = kids
+			l.w = c11Width(nil, len(l.body()))
+			inner = []c11Node{l}
+		}
+		return cat(inner, []c11Node{name(N(false, 0, "TAIL"), i1(0x77)), cont("device", N(false, 0, "AFTR"), name(N(false, 0, "AVAL"), i1(0x55))),
+			method(N(false, 0, "MTAL"), 0)})
+	}
+	manyNames := func(k int) []c11Node {
+		var out []c11Node
+		for i := 0; i < k; i++ {
+			out = append(out, name(N(false, 0, fmt.Sprintf("Q%03d", i)), c11Int{2, uint64(i)}))
+		}
+		return out
+	}
+	for depth := 1; depth <= 40; depth++ {
+		cases = append(cases, c11Hand(fmt.Sprintf("b-deep-%d", depth), "", deep(depth, false)))
+	}
+	for _, depth := range []int{15, 16, 17, 18, 24, 33, 40} {
+		cases = append(cases, c11Hand(fmt.Sprintf("b-deep-mixed-%d", depth), "", deep(depth, true)))
+		cases = append(cases, c11Hand(fmt.Sprintf("b-deep-in-sb-%d", depth), "", []c11Node{cont("scope", N(true, 0, "_SB_"), deep(depth, false)...), name(N(false, 0, "ROOT"), i1(1))}))
+	}
+	for _, depth := range []int{14, 15, 16, 17, 20, 40} {
+		cases = append(cases, c11Hand(fmt.Sprintf("b-deep-later-table-%d", depth), "", manyNames(400), deep(depth, false)))
+		cases = append(cases, c11Hand(fmt.Sprintf("b-deep-third-table-%d", depth), "", manyNames(150), []c11Node{cont("device", N(false, 0, "DEVX"), manyNames(150)...)}, deep(depth, depth%2 == 0)))
+	}
+	// ---- deferred blocks one after the other (seeded change J: what one deferred block leaves on the package-end stack
+	// must not reach the next one): a While whose body ends in a nested If / While, and Buffers / Packages with empty and
+	// non-empty initializers, in both orders, in the root scope and in \_SB (the pre-defined scopes are walked first)
+	arg0 := c11Leaf{"A0", []byte{0x68}}
+	storeL := func(v uint64, local uint64) c11Node {
+		return &c11List{kind: "store", kids: []c11Node{i1(v)}, ints: []uint64{local}}
+	}
+	blk := func(kind string, pred c11Node, body ...c11Node) c11Node {
+		l := &c11List{kind: kind, kids: append([]c11Node{pred}, body...)}
+		l.w = c11Width(nil, len(l.body()))
+		return l
+	}
+	pkgD := func(elems ...c11Node) c11Node {
+		l := &c11List{kind: "p", kids: elems}
+		l.w = c11Width(nil, len(l.body()))
+		return l
+	}
+	loops := map[string]func() c11Node{
+		"if": func() c11Node {
+			return method(N(false, 0, "LOOP"), 1, blk("while", arg0, storeL(1, 0), blk("if", arg0, storeL(2, 1))))
+		},
+		"while": func() c11Node {
+			return method(N(false, 0, "LOOP"), 1, blk("while", arg0, storeL(1, 0), blk("while", i1(0), storeL(2, 1))))
+		},
+		"ifif": func() c11Node {
+			return method(N(false, 0, "LOOP"), 1, blk("while", arg0, blk("if", arg0, storeL(2, 1), blk("if", i1(1), storeL(3, 2)))))
+		},
+		"two-loops": func() c11Node {
+			return method(N(false, 0, "LOOP"), 2, blk("while", arg0, blk("if", arg0, storeL(2, 1))), blk("while", c11Leaf{"A1", []byte{0x69}}, blk("if", arg0, storeL(4, 3))))
+		},
+		"plain": func() c11Node { return method(N(false, 0, "LOOP"), 1, blk("while", arg0, storeL(1, 0))) },
+	}
+	datas := map[string]func() []c11Node{
+		"buf-empty": func() []c11Node { return []c11Node{name(N(false, 0, "BUF0"), c11Buf{1, 4, nil})} },
+		"buf-full": func() []c11Node {
+			return []c11Node{name(N(false, 0, "BUF0"), c11Buf{1, 4, []byte{0xde, 0xad, 0xbe, 0xef}})}
+		},
+		"buf-both": func() []c11Node {
+			return []c11Node{name(N(false, 0, "BUF0"), c11Buf{1, 4, nil}), name(N(false, 0, "BUF1"), c11Buf{1, 4, []byte{0xde, 0xad, 0xbe, 0xef}}),
+				name(N(false, 0, "BUF2"), c11Buf{2, 0, nil})}
+		},
+		"pkg-empty": func() []c11Node { return []c11Node{name(N(false, 0, "PKG0"), pkgD())} },
+		"pkg-full": func() []c11Node {
+			return []c11Node{name(N(false, 0, "PKG0"), pkgD(i1(1), c11Str{[]byte("ab")}, c11Buf{1, 2, nil}))}
+		},
+		"mixed": func() []c11Node {
+			return []c11Node{name(N(false, 0, "PKG0"), pkgD(c11Buf{1, 3, nil}, pkgD())), name(N(false, 0, "BUF0"), c11Buf{1, 4, nil}),
+				name(N(false, 0, "PKG1"), pkgD(i1(7)))}
+		},
+	}
+	for _, lk := range []string{"if", "while", "ifif", "two-loops", "plain"} {
+		for _, dk := range []string{"buf-empty", "buf-full", "buf-both", "pkg-empty", "pkg-full", "mixed"} {
+			feats := "while-deferred"
+			if lk != "plain" {
+				feats += ",deferred-nested-block"
+			}
+			tail := []c11Node{name(N(false, 0, "TAIL"), i1(0x77))}
+			// loop first, data behind it (root scope)
+			cases = append(cases, c11Hand("b-defer-"+lk+"-then-"+dk, feats, cat(one(loops[lk]()), datas[dk](), tail)))
+			// data first, loop behind it
+			cases = append(cases, c11Hand("b-defer-"+dk+"-then-"+lk, feats, cat(datas[dk](), one(loops[lk]()), tail)))
+			// data in the root scope, the loop in \_SB: the deferred pass reaches the loop first
+			cases = append(cases, c11Hand("b-defer-"+lk+"-in-sb-"+dk, feats, cat(datas[dk](), one(cont("scope", N(true, 0, "_SB_"), loops[lk]())), tail)))
+			// both in \_SB, and the data again in a later table
+			cases = append(cases, c11Hand("b-defer-"+lk+"-sb-both-"+dk, feats+",later-table-scope",
+				[]c11Node{cont("scope", N(true, 0, "_SB_"), cat(one(loops[lk]()), datas[dk]())...), name(N(false, 0, "TAIL"), i1(0x77))},
+				[]c11Node{cont("scope", N(true, 0, "_TZ_"), datas[dk]()...), name(N(false, 0, "TAI2"), i1(0x78))}))
+		}
+	}
+
 	for i := 0; i < n; i++ {
 		r := rng.fork()
 		g := c11NewGen(r)
@@ -1176,4 +1478,3 @@ func TestVerifC11(t *testing.T) {
 		}
 	}
 }
-
